@@ -69,3 +69,132 @@ def segment(stream):
     if inside:
         units.append(bytes(cur))
     return units
+
+
+# ---- big synthetic streams (harness command `annexbig`): sizes on the command line, bytes made on both sides ----
+
+def synth(a, b):
+    """bytes a..b of the synthetic non-zero stream (period 251), the same function as harness::synth"""
+    pat = bytes(((j * 7 + 3) % 255 + 1) for j in range(251))
+    k0 = a // 251
+    return (pat * ((b - k0 * 251) // 251 + 2))[a - k0 * 251: b - k0 * 251]
+
+
+def fast_segment(stream):
+    """segment() for long streams: the same definition, scanning with bytes.find"""
+    units, n = [], len(stream)
+    i = stream.find(b"\x00\x00\x01")
+    while i >= 0:
+        start = i + 3
+        # the unit ends before the next 00 00 00 or 00 00 01
+        j = start
+        while True:
+            z = stream.find(b"\x00\x00", j)
+            if z < 0 or z + 2 >= n:
+                # no further 00 00 x: the unit runs to the end of the stream (reset)
+                units.append(stream[start:])
+                return units
+            if stream[z + 2] in (0, 1):
+                units.append(stream[start:z])
+                if stream[z + 2] == 1:
+                    i = z
+                else:
+                    i = stream.find(b"\x00\x00\x01", z + 1)
+                break
+            j = z + 1
+    return units
+
+
+def big_script_units(script):
+    """units (bytes) delivered for an annexbig script; every reset segments what was pushed since the previous one"""
+    pos, cur, units = 0, bytearray(), []
+    for t in script.split(","):
+        if not t or t == "|":
+            continue
+        if t == "r":
+            units += fast_segment(bytes(cur))
+            cur = bytearray()
+        elif t == "s":
+            cur += b"\x00\x00\x01"
+        elif t == "o":
+            cur += b"\x01"
+        elif t[0] == "z":
+            cur += bytes(int(t[1:]))
+        elif t[0] == "d":
+            n = int(t[1:])
+            cur += synth(pos, pos + n)
+            pos += n
+        elif t[0] == "x":
+            cur += bytes.fromhex(t[1:])
+        else:
+            raise ValueError(t)
+    if cur:
+        raise ValueError("annexbig scripts must end with r")
+    return units
+
+
+def big_check(case, answer):
+    """verdict on an `annexbig` answer against the segmentation of the script's stream (None = as the property says)"""
+    import zlib
+    p = case.lstrip("!").split()
+    mode, script = p[1], p[2]
+    units = big_script_units(script)
+    toks = answer.split()
+    if mode == "F":
+        bad = [t for t in toks if not t.startswith("U")]
+        if bad:
+            return "the fragment handler saw %s" % bad[:3]
+        want = ["U%d:%08x" % (len(u), zlib.crc32(u)) for u in units]
+        if toks != want:
+            k = next((i for i, (a, b) in enumerate(zip(toks, want)) if a != b), min(len(toks), len(want)))
+            return "units differ from the start-code segmentation at unit %d: got %s want %s (%d vs %d units)" % (
+                k, toks[k:k + 2], want[k:k + 2], len(toks), len(want))
+        return None
+    nonempty = [u for u in units if u]
+    u = 0
+    for t in toks:
+        body, complete = t[1:].split(";")
+        ln, crc = body.split(":")
+        ln = int(ln)
+        if u >= len(nonempty):
+            return "more handler invocations than NALs: %s" % t
+        unit = nonempty[u]
+        if complete == "1":
+            if ln != len(unit) or crc != "%08x" % zlib.crc32(unit):
+                return "complete NAL %d: got %s want L%d:%08x" % (u, t, len(unit), zlib.crc32(unit))
+            u += 1
+        else:
+            if ln > len(unit) or crc != "%08x" % zlib.crc32(unit[:ln]):
+                return "incomplete view of NAL %d is not a prefix of it: %s" % (u, t)
+    if u != len(nonempty):
+        return "%d NALs completed, the stream holds %d" % (u, len(nonempty))
+    return None
+
+
+def big_scripts(rng, tier):
+    """annexbig scripts: units of 2^k-1..2^k+2 bytes (k to 24 quick / 26 thorough) in 1..3 pushes behind zero padding; the same
+    volume carried across resets; zero padding of 2^k-2..2^k+2 bytes and multiples of 256 before a start code; empty units
+    followed by long units in the same push.  Every script ends with a reset."""
+    out = []
+    tops = [8, 12, 16, 18, 20, 24] if tier == "quick" else [8, 12, 16, 17, 18, 19, 20, 22, 24, 25, 26]
+    for k in tops:
+        for d in (-1, 0, 1, 2):
+            n = (1 << k) + d
+            cuts = sorted(rng.sample(range(1, n), min(n - 1, rng.choice([0, 1, 2]))))
+            toks = ["z%d" % rng.choice([0, 1, 2, 3, 254, 255, 256, 257]), "s"]
+            last = 0
+            for c in cuts + [n]:
+                toks += ["d%d" % (c - last), "|"]
+                last = c
+            toks += ["s", "d5", "r"]
+            out.append(toks)
+            out.append(["s", "d%d" % (n - 1000 if n > 2000 else n), "r", "s", "d2000", "|", "d2000", "|", "d7", "r", "s", "d9", "r"])
+    for z in sorted({(1 << k) + d for k in range(8, 17) for d in (-2, -1, 0, 1, 2)} | {512 + 256 * j + e for j in range(4) for e in (0, 1)}):
+        out.append(["s", "d3", "z%d" % z, "o", "d4", "r"])
+        out.append(["z%d" % z, "o", "d4", "|", "s", "d2", "r"])
+    for n in (4090, 4095, 4096, 4097, 5000, 8192, 65536):
+        out.append(["s", "s", "d%d" % n, "s", "d3", "r"])
+        out.append(["s", "z2", "o", "d%d" % n, "r"])
+        out.append(["s", "d2", "s", "s", "d%d" % n, "z3", "s", "d1", "r"])
+        out.append(["z3", "o", "z2", "o", "d%d" % n, "|", "d1", "r"])
+    return [",".join(t) for t in out]
